@@ -17,7 +17,11 @@ CLAUSES = {"FailedRestoreKeepsIndex", "RecordedImmutable", "SuccessMeansAll", "R
            "CannotCompleteMeansUnchanged", "RestoreTouchesNothingElse"}
 DEFECTS = [("none", None, None), ("noindex", "noindex", None), ("missing", "missing", 0), ("missing", "missing", 1),
            ("truncated", "truncate", 0.2), ("truncated", "truncate", 0.6), ("truncated", "truncate", 0.95),
-           ("badindex", "badindex", None), ("filefordir", "filefordir", 0)]
+           ("badindex", "badindex", None), ("filefordir", "filefordir", 0),
+           # cut exactly where the tar stream reaches a member boundary (start / middle / end of the header of the last,
+           # the last but one, the 4th from last member): a reader that takes "no more headers" for "end of archive" accepts these
+           ("truncated", "cut_at_member", (0, 0)), ("truncated", "cut_at_member", (0, 1)), ("truncated", "cut_at_member", (0, 2)),
+           ("truncated", "cut_at_member", (1, 0)), ("truncated", "cut_at_member", (3, 1))]
 
 
 def prelude(rng, proj):
